@@ -17,6 +17,46 @@ CHECKS = {
             "of the bases-first argument for gather_layers/order_by_bases. Exhaustive over the CFG with exception edges; "
             "not decided: trace-level 'exactly', algorithmic facts beyond the stated premises.",
             "CFG path/dominance rules with exception edges + who-may-call", "4/C01"),
+    'C02': ("Verdict data flow: the final verdict expression cannot be masked and is false when nothing went wrong; no "
+            "lost verdict after EndRun (path-sensitive flag propagation); every bad-outcome channel (test results, layer "
+            "hook exceptions, import failures, missing child layer) reaches an accumulator the verdict reads; the "
+            "subprocess reader fails closed on every exceptional exit; status plumbing Runner.failed -> run_internal -> "
+            "sys.exit; the report channel is separated from test output. Not decided: header look-alike lines written "
+            "straight to fd 2 by tests.",
+            "CFG path rules + three-valued evaluation of the verdict expression + exception-escape analysis", "4/C02"),
+    'C04': ("Exception containment: interprocedural escape sets of everything a layer setUp/tearDown or a debugged test "
+            "may raise (only MemoryError, and EndRun under post-mortem, leave run_layer / Runner.run_tests as Exception); "
+            "typestate exploration of all TestResult callback sequences (both unittest protocol variants, all option "
+            "combinations) shows no callback fails on its own state; every formatter method used exists with a compatible "
+            "signature on all formatter classes; summary, continuation of the layer loop and final tear-down on all paths. "
+            "Not decided: errors inside printing itself or outside the raise-source catalogue.",
+            "exception-escape analysis + typestate exploration (abstract interpretation of the callbacks) + interface cross-check", "4/C04"),
+    'C05': ("Per-test hooks: on every result-event sequence of both unittest protocol variants testSetUp/testTearDown are "
+            "balanced, ordered (bases first / exact reverse) and complete; the layer list is order_by_bases(gathered "
+            "layers of this result's layer); hooks have one call site each, filtered only by hasattr of the hook called. "
+            "Not decided: a hook raising half-way through the list.",
+            "typestate exploration over the unittest driver protocol + def-use provenance", "4/C05"),
+    'C07': ("Wire agreement between child report writer and parent reader (header fields by role, body order, one line "
+            "per entry, line-break discipline), fail-closed reader on every exceptional exit, channel separation and "
+            "drain-thread ordering, done/kill/reap on every exit. Not decided: byte-level noise on fd 2, crash timing, "
+            "real termination (scheduling/OS).",
+            "writer/reader cross-check + CFG must-pass-through with exception edges", "4/C07"),
+    'C12': ("Argument roles of summary/totals (sum-of-lengths terms), list routing, accumulator agreement of the "
+            "in-process and subprocess paths, testsRun counter on every protocol word (symbolic counter in the typestate "
+            "exploration), wire agreement, number/label agreement in every formatter. Not decided: equality with the "
+            "ground truth of a concrete run.",
+            "def-use role tables + sibling cross-check + typestate counter", "4/C12"),
+    'C13': ("Std streams: on every result-event sequence (incl. none = KeyboardInterrupt) sys.stdout/sys.stderr are the "
+            "original objects after stopTest; no callback fails on the stream state; captured text reaches exactly the "
+            "failing test's report (uncrossed), never a passing test's; buffers rewound+truncated after every capture; "
+            "every formatter emits both captured strings; no store to the std streams without --buffer and none outside "
+            "the who-may-assign table; subunit forces --buffer. Not decided: fd-level writes, byte content.",
+            "typestate exploration with stream-identity and capture tags + who-may-assign + def-use to sinks", "4/C13"),
+    'C16': ("--stop-on-error: every callback that reports a failure/error (derived set) sets shouldStop on every protocol "
+            "word; in function run_tests the check dominates each test execution and, flow-sensitively, no execution is "
+            "reachable after a stop (including through the --repeat back edge and a fresh result object); the layer loop "
+            "is left after recorded failures or errors; final tear-down and verdict.",
+            "typestate exploration + flow-sensitive CFG reachability", "4/C16"),
 }
 
 REASON_NOT_BUILT = "static check for this property is not built yet in this round (see DESIGN.md section 4 for the planned rules)"
